@@ -220,6 +220,7 @@ func TestVerifC16Handoff(t *testing.T) {
 	nPlain := verifkit.Pick(40, 100)
 	seq := 0
 	idsSeen := map[string]bool{}
+	idOwner := map[string]*c16Req{}
 	run := func(r *c16Req) {
 		seq++
 		r.Seq = seq
@@ -256,6 +257,11 @@ func TestVerifC16Handoff(t *testing.T) {
 		w := map[string]any{"request": r, "query_log_record": es[0], "expected_client_id": r.Want,
 			"history": fmt.Sprintf("round %d; ids carried by earlier requests: %d distinct; reconfigurations so far: %d",
 				r.Round, len(idsSeen), rep.Events["reconfigurations"])}
+		if o := idOwner[got]; o != nil {
+			w["earlier_request_that_carried_this_id"] = o
+			w["how_to_reproduce"] = fmt.Sprintf("start the server; send request seq %d (below) and the other id-carrying requests before it in order, "+
+				"so that it is the proxy's request number N; call Server.Reconfigure(nil); send plain requests: the N-th of them is logged with that ClientID", o.Seq)
+		}
 		hist := "without-reconfiguration"
 		if rep.Events["reconfigurations"] > 0 {
 			hist = "after-a-reconfiguration"
@@ -293,6 +299,7 @@ func TestVerifC16Handoff(t *testing.T) {
 			}
 			run(r)
 			idsSeen[r.Want] = true
+			idOwner[r.Want] = r
 			if rng.Intn(5) == 0 {
 				run(&c16Req{Round: round, Phase: "steady", Proto: []string{"udp", "tcp"}[rng.Intn(2)]})
 			}
